@@ -252,6 +252,9 @@ class Limits:
                     nz = sum(1 for c in kept if M_inf[r0, c] != 0 or M_inf[r0 + 1, c] != 0)
                     if nz >= 3:
                         keep_rows.append((vid, r0))
+                # same junction set is checked below; rows are laid out in the order the library chose for its own matrix
+                if set(v_ for v_, _ in keep_rows) == set(fm.map_vid_to_row):
+                    keep_rows.sort(key=lambda vr: fm.map_vid_to_row[vr[0]])
                 Mr = np.zeros((2 * len(keep_rows), len(kept)))
                 b = np.zeros(2 * len(keep_rows))
                 vel = np.array(fm.velocity_matrix, float).ravel() if fm.velocity_matrix is not None else None
@@ -306,7 +309,8 @@ class Limits:
 def build(tier, seed):
     M = ["m", 0.05, 0.02]
     specs = [["v", "v5x5", M, 0.0], ["v", "v5x5", M, 0.08], ["sq", 4, 0.25, seed + 1, ["id"], 0.0], ["v", "v4x4p%d" % (seed + 1), ["mc", 0.12, 0.05], 0.0]]
+    specs += [["v", "v6x5", M, 0.0], ["sq", 3, 0.2, seed + 3, ["m", 0.03, 0.0], 0.0]]
     if tier == "thorough":
-        specs += [["v", "v6x5", M, 0.0], ["v", "v6x6", ["id"], 0.05], ["sq", 5, 0.3, seed + 2, ["id"], 0.03], ["v", "v7x6", M, 0.0],
-                  ["v", "v6x5", ["mc", 0.12, 0.05], 0.15], ["sq", 3, 0.2, seed + 3, ["m", 0.03, 0.0], 0.0]]
+        specs += [["v", "v6x6", ["id"], 0.05], ["sq", 5, 0.3, seed + 2, ["id"], 0.03], ["v", "v7x6", M, 0.0],
+                  ["v", "v6x5", ["mc", 0.12, 0.05], 0.15]]
     return [Limits(specs)]
